@@ -188,6 +188,9 @@ def interleave_chunk(items, extra):
     from mitxgraders.helpers.calc.math_array import MathArray
     sc = X.t_scope()
     vec_vars = {k: MathArray([1.0, float(i + 2)]) for i, k in enumerate(sorted(sc[0]))}
+    alt_vars = {k: 3 * v + 1 for k, v in sc[0].items()}
+    alt_funcs = {k: (lambda g: (lambda *a: g(*a) + 1))(f) for k, f in sc[1].items()}
+    alt_sufs = {k: v * 1.024 for k, v in sc[2].items()}
 
     def fresh_observe(text, scope=None):
         """the same evaluator() call with a brand-new parser swapped in for the shared one"""
@@ -210,6 +213,12 @@ def interleave_chunk(items, extra):
                 toks += ([X.tk_op(',')] if j else []) + [X.tk_name(nm)]
             toks.append(X.tk_op(']'))
             pool.append({'id': -1, 'kind': 'array', 'toks': [{k: t[k] for k in ('k', 's', 'q', 'a')} for t in toks],
+                         'text': X.render_records(toks)})
+        # a few constant expressions (no variable, no function): their value still depends on the suffix table of each evaluation
+        for spec in ([0, 'k'], [1, '%'], [0, 'k', '+', 1, '%'], [2, 'm', '*', 0, 'k'], [4, '^', 0], [3, 'k', '/', 5, 'm']):
+            toks = [X.tk_num(t) if isinstance(t, int) else (X.TK_PCT if t == '%' else X.tk_name(t) if t.isalpha() else X.tk_op(t))
+                    for t in spec]
+            pool.append({'id': -1, 'kind': 'constant', 'toks': [{k: t[k] for k in ('k', 's', 'q', 'a')} for t in toks],
                          'text': X.render_records(toks)})
         for k in range(count):
             r = rng.random()
@@ -248,7 +257,15 @@ def interleave_chunk(items, extra):
                 except Exception:  # noqa
                     pass
                 continue
-            if pool and r < 0.40:
+            if pool and r < 0.28:
+                # evaluate an earlier string in a scope with the SAME names bound to other values: other numbers for
+                # the variables, other multipliers for the suffixes (k = 1024 ...), other functions of the same names
+                try:
+                    E.evaluator(rng.choice(pool)['text'], alt_vars, alt_funcs, alt_sufs)
+                except Exception:  # noqa
+                    pass
+                continue
+            if pool and r < 0.44:
                 case = dict(rng.choice(pool))           # repeat an earlier string (cache hit), maybe re-spaced
                 case['id'] = rid
                 if rng.random() < 0.5:
